@@ -444,6 +444,38 @@ def p_blockwise_twice(w, E, a, b):
     return Prog(out.expr, concatenate_nested(parts), dsk)
 
 
+def _partial_dot(a, b):
+    """user block function of a hand-written contraction: one partial row-dot per block of the contracted axis"""
+    return (a * b).sum(axis=1, keepdims=True)
+
+
+_partial_dot = user_kernel(_partial_dot)
+
+
+def p_contract_rows(w, E, a, b):
+    """blockwise(f, 'ij', a, 'ij', b, 'j', adjust_chunks={'j': 1}).sum(axis=1): the way matmul / tensordot / einsum contract --
+    one partial result per block of the contracted axis j, summed afterwards -- so the intermediate's very shape follows the
+    unified layout of j; the total is sum_j a[i, j] * b[j] whatever that layout is"""
+    ca, cb = w.fn(NC, "new_collection")(a.node), w.fn(NC, "new_collection")(b.node)
+    part = w.fn("dask_array.core._blockwise_funcs", "blockwise")(_partial_dot, "ij", ca, "ij", cb, "j", adjust_chunks={"j": 1}, dtype="f8",
+                                                                 meta=np.empty((0, 0)))
+    total = (a.ref * b.ref).reduce_axis(1, "add")  # (the same element-wise product the kernel forms, summed over the whole axis)
+    dsk = dict(a.dsk)
+    dsk.update(b.dsk)
+    return Prog(part.expr, None, dsk), total
+
+
+def _contract_then(w, E, raw):
+    a = source(w, E, "a", (2, 3), chunks=[None, (1, 1, 2)])
+    b = source(w, E, "b", (2,), chunks=[(3, 1)])
+    set_policy(w, "auto")
+    part, total = p_contract_rows(w, E, a, b)
+    sl = part.node if raw is None else w.fn(NC, "new_collection")(part.node)[raw].expr
+    out = w.fn(RCM, "sum")(w.fn(NC, "new_collection")(sl), axis=1, dtype="f8")
+    ref = total if raw is None else total[raw[0]]
+    return Prog(out.expr, ref, part.dsk)
+
+
 def p_arange(w, E, step, blocks):
     """arange(start, start + n*step, step) with symbolic start and chunk sizes; values are start + p*step"""
     import z3
@@ -929,6 +961,7 @@ def programs(tier):
     reg("map_blocks(first,(x[4,8]+y[8,4])[5:12]*2)", lambda w, E: p_map_first(w, E, p_elemwise(w, operator.mul, p_slice(w, _add_concrete(w, E, (4, 8), (8, 4)), (slice(5, 12),)), 2.0)), 3)
     reg("map_blocks(first,(x[2,2,2,2,2,2]+y[1,11])[[9,7,5]]*2)", lambda w, E: p_map_first(w, E, p_elemwise(w, operator.mul, p_take(w, E, _add_concrete(w, E, (2,) * 6, (1, 11)), 0, [9, 7, 5]), 2.0)), 3)
     reg("blockwise(twice,x[4,8],y[11,1],adjust_chunks=2n)[a:b]", lambda w, E: p_slice(w, p_blockwise_twice(w, E, source(w, E, "x", (2,), chunks=[(4, 8)]), source(w, E, "y", (2,), chunks=[(11, 1)])), raw_index(E, (F,))), 6)
+    reg("contract(a[s,s|1,1,2],b[3,1])[a:].sum(1)", lambda w, E: _contract_then(w, E, raw_index(E, ((1, 0, None),))), 6)
     reg("map_blocks(first,x3[::-1])", lambda w, E: p_map_first(w, E, p_slice(w, source(w, E, "x", (3,)), raw_index(E, REV))), 2)
     # creation with affine values: slices fold into start/step (Arange._accept_slice)
     reg("arange(start,stop,2;3 blocks)", lambda w, E: p_arange(w, E, 2, 3), 2)
